@@ -141,29 +141,35 @@ func runC42(c *core.Ctx) error {
 		jobs = []gjob{{cfgFull, 0}, {cfgZero3, 0}}
 		nproc = 6
 	}
+	dumps := make([]chan dumped, len(jobs))
+	for i, j := range jobs {
+		dumps[i] = make(chan dumped, 1)
+		go func(ch chan dumped, m modelCfg) { ch <- dumpGraph(c, m.consts()) }(dumps[i], j.m)
+	}
 	var gstats []*graphStats
 	for i, j := range jobs {
-		st, err := replayGraph(c, plain, j.m.String(), j.m.consts(), j.m.np, nproc, j.sample)
+		st, g, err := replayGraph(c, plain, j.m.String(), <-dumps[i], j.m.np, nproc, j.sample)
 		if st != nil {
 			gstats = append(gstats, st)
 			c.Add("states", st.States)
 			c.Add("transitions", st.Transitions)
 			c.Add("evaluations", st.Replayed)
-			c.Logf("replay %s: %d of %d transitions replayed (+%d wake transitions implied), %d ctx_ready staged, %d mismatching, %.1fs",
-				j.m.name, st.Replayed, st.Transitions, st.WakeEdges, st.CtxReadySeen, st.Mismatches, st.ReplayWall)
+			c.Logf("replay %s: %d of %d transitions replayed (+%d wake, +%d ctx_ready implied by commutation), %d ctx_ready staged, %d mismatching, %.1fs",
+				j.m.name, st.Replayed, st.Transitions, st.WakeEdges, st.CtxReadyImplied, st.CtxReadySeen, st.Mismatches, st.ReplayWall)
 		}
 		if err != nil {
 			errs <- fmt.Errorf("edge replay %s: %v", j.m.name, err)
 			break
 		}
-		if st.Mismatches == 0 && st.Replayed+st.WakeEdges+st.Untestable != st.Transitions && j.sample == 0 {
-			errs <- fmt.Errorf("edge replay %s: %d replayed + %d wake + %d untestable != %d transitions", j.m.name, st.Replayed, st.WakeEdges, st.Untestable, st.Transitions)
+		if st.Mismatches == 0 && st.Replayed+st.WakeEdges+st.CtxReadyImplied+st.Untestable != st.Transitions && j.sample == 0 {
+			errs <- fmt.Errorf("edge replay %s: %d replayed + %d wake + %d implied + %d untestable != %d transitions", j.m.name, st.Replayed, st.WakeEdges, st.CtxReadyImplied, st.Untestable, st.Transitions)
 		}
 		if st.Untestable > 0 && st.Mismatches == 0 {
 			errs <- fmt.Errorf("edge replay %s: %d transitions could not be replayed", j.m.name, st.Untestable)
 		}
-		if i == 0 {
-			if err := selfTestFromStats(c, plain, j.m); err != nil {
+		if i == len(jobs)-1 && g != nil {
+			// binding self-test on the smaller graph: a driver that skips the operation under test
+			if err := selfTestReplay(c, plain, g, j.m.np); err != nil {
 				errs <- err
 			}
 		}
@@ -192,21 +198,6 @@ func runC42(c *core.Ctx) error {
 		}
 	}
 	return first
-}
-
-// selfTestFromStats re-dumps nothing: it re-uses a small graph to show that the comparison
-// notices a driver that skips the operation under test.
-func selfTestFromStats(c *core.Ctx, drv string, m modelCfg) error {
-	tiny := modelCfg{"selftest", 2, "{1, 2}", "{0, 1, 2}", 1}
-	res, err := c.MustTLC(core.TLCOpts{Module: "MC_Semaphore", Cfg: "MC_Semaphore.cfg", Consts: tiny.consts(), Workers: 2, DumpDot: true, Timeout: 5 * time.Minute})
-	if err != nil {
-		return err
-	}
-	g, err := parseDot(res.Dot)
-	if err != nil {
-		return err
-	}
-	return selfTestReplay(c, drv, g, tiny.np)
 }
 
 // ---------------------------------------------------------------------------
@@ -329,22 +320,33 @@ func mixAndValidate(c *core.Ctx, drv string) error {
 			first = first[:len(first)-1]
 		}
 	}
-	n := 0
-	for _, mode := range []string{"cur+1", "drop", "waiters+1"} {
-		bad, what := corrupt(first, mode)
-		if bad == nil {
-			return fmt.Errorf("self-test: no event to corrupt (%s)", mode)
-		}
-		r, consumed, err := traceTLC(c, bad, "HeadBlocked", false)
-		if err != nil {
-			return err
-		}
-		if r.OK {
-			return fmt.Errorf("binding self-test failed: corrupted trace (%s) was accepted", what)
-		}
-		_ = consumed
-		n++
+	modes := []string{"cur+1", "drop", "waiters+1"}
+	serrs := make([]error, len(modes))
+	var swg sync.WaitGroup
+	for i, mode := range modes {
+		swg.Add(1)
+		go func(i int, mode string) {
+			defer swg.Done()
+			bad, what := corrupt(first, mode)
+			if bad == nil {
+				serrs[i] = fmt.Errorf("self-test: no event to corrupt (%s)", mode)
+				return
+			}
+			r, _, err := traceTLC(c, bad, "HeadBlocked", false)
+			if err != nil {
+				serrs[i] = err
+			} else if r.OK {
+				serrs[i] = fmt.Errorf("binding self-test failed: corrupted trace (%s) was accepted", what)
+			}
+		}(i, mode)
 	}
+	swg.Wait()
+	for _, e := range serrs {
+		if e != nil {
+			return e
+		}
+	}
+	n := len(modes)
 	c.Set("selftest_corrupted_traces_rejected", n)
 	return nil
 }
